@@ -1176,9 +1176,12 @@ class CodeGenerator(StructuredCodeGenerator):
         sym_table = self.sym_kind_table.per_phase_table.get(
                 self.current_function, {})
 
+        # Every exit from the phase (including the early ones taken by
+        # FailStep, SwitchPhase and skipped conditional blocks) passes
+        # through here, and the deinit routine is a no-op for variables that
+        # have already been released at their last use.
         for identifier, sym_kind in sorted(sym_table.items()):
-            if (identifier, self.current_function) not in self.last_used_stmt_table:
-                self.emit_variable_deinit(identifier, sym_kind)
+            self.emit_variable_deinit(identifier, sym_kind)
 
         # }}}
 
